@@ -30,6 +30,10 @@ SCENARIOS = [
     ("open_run,clear_checkpoint,checkpoint", "pause", {} if THOROUGH else {"max_requests": 2}),
     ("open_run,custom,clear_checkpoint", "suspend", {}),
     ("custom_async,clear_checkpoint", "pause", {}),
+    # nothing but an explicit checkpoint ends the section: not a toggle of rewindable, not an implicit checkpoint (stage ...)
+    ("clear_checkpoint,rewindable_off,rewindable_on,checkpoint", "pause", {} if THOROUGH else {"max_requests": 2}),
+    ("clear_checkpoint,stage,unstage,checkpoint", "pause", {} if THOROUGH else {"max_requests": 2}),
+    ("clear_checkpoint,stage,rewindable_off", "suspend", {} if THOROUGH else {"max_requests": 2}),
 ]
 if THOROUGH:
     SCENARIOS += [
